@@ -1,6 +1,6 @@
 #!/bin/sh
-# usage: adopt_seed.sh <id>: copy a sub-agent's deliverables from /tmp/wt/<id>/seed into /verif/seeded/<id> and confirm them
+# usage: adopt_seed.sh <id>: copy a sub-agent's deliverables from /tmp/wt/<id>/seed into ${VERIF_DIR:-/verif}/seeded/<id> and confirm them
 id=$1
-mkdir -p /verif/seeded/$id
-for f in patch.diff demo.py demo.sh notes.md; do [ -f /tmp/wt/$id/seed/$f ] && cp /tmp/wt/$id/seed/$f /verif/seeded/$id/; done
-sh /verif/harness/verify_seed.sh $id
+mkdir -p ${VERIF_DIR:-/verif}/seeded/$id
+for f in patch.diff demo.py demo.sh notes.md; do [ -f /tmp/wt/$id/seed/$f ] && cp /tmp/wt/$id/seed/$f ${VERIF_DIR:-/verif}/seeded/$id/; done
+sh ${VERIF_DIR:-/verif}/harness/verify_seed.sh $id
